@@ -1,6 +1,392 @@
 import Solvor.Cp.Model
 import Solvor.Cp.DpllLemmas
-/-! Cp: property theorems only (helper lemmas live in Lemmas.lean / DpllLemmas.lean). -/
+import Solvor.Cp.EncodeLemmas
+import Solvor.Cp.ModelLemmas
+import Solvor.Cp.PropLemmas
+/-! Cp: property theorems only (helper lemmas live in Lemmas.lean, DpllLemmas.lean,
+ChainLemmas.lean, EncodeLemmas.lean, PropLemmas.lean).
+
+T-spec (verified checkers used by the drivers on every explored case):
+  `check_iff`, `mem_solutions`, `solve_correct`, `enumProj_spec`, `cnfTrue` is the definition.
+T-model, C06 (encoder): `encode_vars_decode`, `enc_all_different`, `enc_eq_const`, `enc_ne_const`,
+  `enc_eq_var`, `enc_ne_var`, `enc_no_overlap`, `enc_linear` (every `ne_expr` shape),
+  `enc_sum_eq`, `enc_sum_le`, `enc_sum_ge`, `encode_compositional`, `encode_model_exact_partial`.
+T-model, C05 (DFS): see the second half of the file. -/
 namespace Solvor.Cp
+open Solvor.Cp.Sat
+
+/-! ## T-spec -/
+
+/-- The Bool evaluator used by the driver decides the spec. -/
+theorem check_decides (a : Asg) (c : Con) : check a c = true ↔ Holds a c := check_iff a c
+
+example : check [0, 1] (.rel (.add (.var 0) (.var 1)) (.const 10) false) = false := by decide
+
+/-- The exhaustive enumerator lists exactly the solutions of the model. -/
+theorem solutions_complete {M : Model} {a : Asg} : a ∈ solutions M ↔ IsSolution M a := mem_solutions
+
+example : solutions ⟨[⟨0, 2⟩, ⟨0, 2⟩], [.rel (.add (.var 0) (.var 1)) (.const 2) false, .allDiff [0, 1]]⟩
+    = [[0, 2], [2, 0]] := by decide
+
+/-- The reference DPLL decides satisfiability of every well-formed clause list. -/
+theorem solve_correct (f : Cnf) (h : WF f) : solve f = true ↔ ∃ σ, cnfTrue σ f = true :=
+  dpll_correct _ f h (by omega)
+
+example : WF [[1, 2], [-1], [-2, 3]] ∧ solve [[1, 2], [-1], [-2, 3]] = true := by decide
+
+/-- The projected enumerator lists exactly the restrictions to `vs` of the models of `f`. -/
+theorem enumProj_spec : ∀ (vs : List Nat) (f : Cnf), WF f → (∀ v ∈ vs, v ≠ 0) → vs.Nodup →
+    ∀ bs : List Bool, bs ∈ enumProj vs f ↔ ∃ σ, cnfTrue σ f = true ∧ vs.map σ = bs
+  | [], f, hwf, _, _, bs => by
+    simp only [enumProj, List.map_nil]
+    by_cases hs : solve f = true
+    · rw [if_pos hs]
+      have := (solve_correct f hwf).1 hs
+      constructor
+      · intro h; obtain ⟨σ, hσ⟩ := this; exact ⟨σ, hσ, by simpa using (List.mem_singleton.1 h).symm⟩
+      · rintro ⟨_, _, rfl⟩; simp
+    · rw [if_neg hs]
+      simp only [List.not_mem_nil, false_iff, not_exists, not_and]
+      intro σ hσ; exact absurd ((solve_correct f hwf).2 ⟨σ, hσ⟩) hs
+  | v :: vs, f, hwf, h0, hnd, bs => by
+    have hv0 : (v : Int) ≠ 0 := by have := h0 v List.mem_cons_self; omega
+    have hnv0 : -(v : Int) ≠ 0 := by omega
+    have hvs : v ∉ vs := (List.nodup_cons.1 hnd).1
+    have ih1 := enumProj_spec vs (assign (v : Int) f) (WF_assign hwf)
+      (fun w hw => h0 w (List.mem_cons_of_mem _ hw)) (List.nodup_cons.1 hnd).2
+    have ih2 := enumProj_spec vs (assign (-(v : Int)) f) (WF_assign hwf)
+      (fun w hw => h0 w (List.mem_cons_of_mem _ hw)) (List.nodup_cons.1 hnd).2
+    have hlt : ∀ σ : Nat → Bool, litTrue σ (v : Int) = σ v := by
+      intro σ; unfold litTrue
+      have : (0 : Int) < (v : Int) := by omega
+      simp only [this, if_true, Int.natAbs_natCast]
+    have hmap : ∀ (σ : Nat → Bool) (l : Int), l.natAbs = v → vs.map (setLit σ l) = vs.map σ := by
+      intro σ l hl
+      apply List.map_congr_left
+      intro w hw
+      apply setLit_apply_ne
+      rw [hl]; rintro rfl; exact hvs hw
+    simp only [enumProj]
+    by_cases he : f.any List.isEmpty = true
+    · rw [if_pos he]
+      simp only [List.not_mem_nil, false_iff, not_exists, not_and]
+      intro σ hσ; rw [cnfTrue_of_empty_mem he] at hσ; cases hσ
+    · rw [if_neg he]
+      simp only [List.mem_append, List.mem_map, List.map_cons]
+      constructor
+      · rintro (⟨bs', hb, rfl⟩ | ⟨bs', hb, rfl⟩)
+        · obtain ⟨σ, hσ, hm⟩ := (ih1 bs').1 hb
+          refine ⟨setLit σ (v : Int), ?_, ?_⟩
+          · rw [← cnfTrue_assign hv0 litTrue_setLit_self, cnfTrue_setLit_assign]; exact hσ
+          · rw [hmap σ _ (by simp), hm]
+            have : setLit σ (v : Int) v = true := by
+              have := h0 v List.mem_cons_self
+              simp [setLit]; omega
+            rw [this]
+        · obtain ⟨σ, hσ, hm⟩ := (ih2 bs').1 hb
+          refine ⟨setLit σ (-(v : Int)), ?_, ?_⟩
+          · rw [← cnfTrue_assign hnv0 litTrue_setLit_self, cnfTrue_setLit_assign]; exact hσ
+          · rw [hmap σ _ (by simp), hm]
+            have : setLit σ (-(v : Int)) v = false := by simp [setLit]
+            rw [this]
+      · rintro ⟨σ, hσ, rfl⟩
+        cases hb : σ v
+        · right
+          refine ⟨vs.map σ, (ih2 _).2 ⟨σ, ?_, rfl⟩, rfl⟩
+          rw [cnfTrue_assign hnv0 (by rw [litTrue_neg hv0, hlt, hb]; rfl)]; exact hσ
+        · left
+          refine ⟨vs.map σ, (ih1 _).2 ⟨σ, ?_, rfl⟩, rfl⟩
+          rw [cnfTrue_assign hv0 (by rw [hlt, hb])]; exact hσ
+
+example : enumProj [1, 2] [[1, 2, 3], [-1, -2], [-3]] = [[true, false], [false, true]] := by decide
+
+/-! ## T-model, C06: the encoder
+
+Setting: `Vs` are the encoded named variables, `Enc β Vs a` says that the Boolean assignment `β`
+encodes the integer assignment `a` (variable `i` has exactly the boolean of `a[i]` true, inside its
+domain).  For auxiliary-free kinds the theorem is `β ⊨ enc(K) ↔ a ⊨ K`; for kinds with auxiliary
+variables it is `Exact`: every model decodes to a solution, and every encoded solution extends on
+the fresh booleans to a model. -/
+
+/-- **encode_vars_decode**: the exactly-one clauses of the named variables hold iff `β` encodes an
+assignment; that assignment is unique, inside the domains, and is what `decode_sat_solution`
+returns. -/
+theorem encode_vars_decode (ds : List VarDecl) (hne : ∀ d ∈ ds, d.lb ≤ d.ub) (β : Nat → Bool) :
+    (cnfTrue β (encodeVars (mkVars ds 1).1) = true ↔ ∃ a, Enc β (mkVars ds 1).1 a) ∧
+    ∀ a, Enc β (mkVars ds 1).1 a →
+      InDom a ds ∧ (mkVars ds 1).1.map (decodeVar β) = a.map some ∧
+      ∀ b, Enc β (mkVars ds 1).1 b → b = a := by
+  have hpos : ∀ V ∈ (mkVars ds 1).1, 0 < V.base := fun V hV => (mkVars_below ds 1 (by omega) V hV).1
+  constructor
+  · rw [encodeVars_iff hpos (mkVars_nonempty ds 1 hne)]
+    constructor
+    · rintro ⟨a, ha⟩; exact ⟨a, enc_iff_repL.2 ⟨ha, hpos⟩⟩
+    · rintro ⟨a, ha⟩; exact ⟨a, (enc_iff_repL.1 ha).1⟩
+  · intro a ha
+    have hr := (enc_iff_repL.1 ha).1
+    exact ⟨mkVars_bounds ds 1 a hr, hr.decode, fun b hb => RepL.unique (enc_iff_repL.1 hb).1 hr⟩
+
+example : (mkVars [⟨-2, 1⟩, ⟨3, 5⟩] 1).1 = [⟨-2, 1, 1⟩, ⟨3, 5, 5⟩] := by decide
+
+/-- **enc_eq_const** -/
+theorem enc_eq_const {β : Nat → Bool} {Vs : List EVar} {a : Asg} (h : Enc β Vs a) {v : Nat} (c : Int)
+    (nx : Nat) (hv : v < Vs.length) :
+    cnfTrue β (encodeCon Vs (.eqConst v c) nx).1 = true ↔ Holds a (.eqConst v c) :=
+  encEqConst_iff (h.2 v hv).1 (h.2 v hv).2 c
+
+/-- **enc_ne_const** -/
+theorem enc_ne_const {β : Nat → Bool} {Vs : List EVar} {a : Asg} (h : Enc β Vs a) {v : Nat} (c : Int)
+    (nx : Nat) (hv : v < Vs.length) :
+    cnfTrue β (encodeCon Vs (.neConst v c) nx).1 = true ↔ Holds a (.neConst v c) :=
+  encNeConst_iff (h.2 v hv).1 (h.2 v hv).2 c
+
+/-- **enc_eq_var** -/
+theorem enc_eq_var {β : Nat → Bool} {Vs : List EVar} {a : Asg} (h : Enc β Vs a) {x y : Nat}
+    (nx : Nat) (hx : x < Vs.length) (hy : y < Vs.length) :
+    cnfTrue β (encodeCon Vs (.eqVar x y) nx).1 = true ↔ Holds a (.eqVar x y) :=
+  encEqVar_iff (h.2 x hx).1 (h.2 y hy).1 (h.2 x hx).2 (h.2 y hy).2
+
+/-- **enc_ne_var** -/
+theorem enc_ne_var {β : Nat → Bool} {Vs : List EVar} {a : Asg} (h : Enc β Vs a) {x y : Nat}
+    (nx : Nat) (hx : x < Vs.length) (hy : y < Vs.length) :
+    cnfTrue β (encodeCon Vs (.neVar x y) nx).1 = true ↔ Holds a (.neVar x y) :=
+  encNeVar_iff (h.2 x hx).1 (h.2 y hy).1 (h.2 x hx).2 (h.2 y hy).2
+
+/-- **enc_all_different** -/
+theorem enc_all_different {β : Nat → Bool} {Vs : List EVar} {a : Asg} (h : Enc β Vs a) {vs : List Nat}
+    (nx : Nat) (hs : ∀ v ∈ vs, v < Vs.length) :
+    cnfTrue β (encodeCon Vs (.allDiff vs) nx).1 = true ↔ Holds a (.allDiff vs) :=
+  encAllDiff_iff h hs
+
+/-- **enc_no_overlap** -/
+theorem enc_no_overlap {β : Nat → Bool} {Vs : List EVar} {a : Asg} (h : Enc β Vs a) {ss : List Nat}
+    (ds : List Int) (nx : Nat) (hs : ∀ v ∈ ss, v < Vs.length) :
+    cnfTrue β (encodeCon Vs (.noOverlap ss ds) nx).1 = true ↔ Holds a (.noOverlap ss ds) :=
+  encNoOverlap_iff h ds hs
+
+-- non-vacuity: a concrete β encoding x0 = 1, x1 = 0 over domains 0..1 / 0..2
+example : Enc (fun n => n == 2 || n == 3) [⟨0, 1, 1⟩, ⟨0, 2, 3⟩] [1, 0] := by
+  refine ⟨rfl, fun i hi => ?_⟩
+  have : i = 0 ∨ i = 1 := by simp at hi; omega
+  rcases this with rfl | rfl
+  · refine ⟨by decide, ⟨by decide, by decide⟩, fun v h1 h2 => ?_⟩
+    have : v = 0 ∨ v = 1 := by simp [ev] at h1 h2; omega
+    rcases this with rfl | rfl <;> simp [ev, val, EVar.var]
+  · refine ⟨by decide, ⟨by decide, by decide⟩, fun v h1 h2 => ?_⟩
+    have : v = 0 ∨ v = 1 ∨ v = 2 := by simp [ev] at h1 h2; omega
+    rcases this with rfl | rfl | rfl <;> simp [ev, val, EVar.var]
+
+private theorem below_map {Vs : List EVar} {nx : Nat} (hB : ∀ V ∈ Vs, V.Below nx) {vs : List Nat}
+    (hs : ∀ v ∈ vs, v < Vs.length) : ∀ X ∈ vs.map (ev Vs), X.Below nx := by
+  intro X hX
+  obtain ⟨v, hv, rfl⟩ := List.mem_map.1 hX
+  exact hB _ (ev_mem (hs v hv))
+
+/-- **enc_sum_eq** (chained partial sums) -/
+theorem enc_sum_eq {Vs : List EVar} {nx : Nat} (hB : ∀ V ∈ Vs, V.Below nx) (hnx : 0 < nx)
+    {vs : List Nat} (t : Int) (hs : ∀ v ∈ vs, v < Vs.length) :
+    Exact Vs (fun a => Holds a (.sumEq vs t)) (encodeCon Vs (.sumEq vs t) nx).1 nx
+      (encodeCon Vs (.sumEq vs t) nx).2 :=
+  ⟨encSumEq_mono _ _ _,
+   fun _ _ he hc => encSumEq_sound (RepL.pos_of_below (below_map hB hs)) hnx (he.repL hs) hc,
+   fun _ _ he hh => encSumEq_complete (below_map hB hs) hnx (he.repL hs) hh⟩
+
+/-- **enc_sum_le** -/
+theorem enc_sum_le {Vs : List EVar} {nx : Nat} (hB : ∀ V ∈ Vs, V.Below nx) (hnx : 0 < nx)
+    {vs : List Nat} (t : Int) (hs : ∀ v ∈ vs, v < Vs.length) :
+    Exact Vs (fun a => Holds a (.sumLe vs t)) (encodeCon Vs (.sumLe vs t) nx).1 nx
+      (encodeCon Vs (.sumLe vs t) nx).2 :=
+  ⟨encSumLe_mono _ _ _,
+   fun _ _ he hc => encSumLe_sound (RepL.pos_of_below (below_map hB hs)) hnx (he.repL hs) hc,
+   fun _ _ he hh => encSumLe_complete (below_map hB hs) hnx (he.repL hs) hh⟩
+
+/-- **enc_sum_ge** -/
+theorem enc_sum_ge {Vs : List EVar} {nx : Nat} (hB : ∀ V ∈ Vs, V.Below nx) (hnx : 0 < nx)
+    {vs : List Nat} (t : Int) (hs : ∀ v ∈ vs, v < Vs.length) :
+    Exact Vs (fun a => Holds a (.sumGe vs t)) (encodeCon Vs (.sumGe vs t) nx).1 nx
+      (encodeCon Vs (.sumGe vs t) nx).2 :=
+  ⟨encSumGe_mono _ _ _,
+   fun _ _ he hc => encSumGe_sound (RepL.pos_of_below (below_map hB hs)) hnx (he.repL hs) hc,
+   fun _ _ he hh => encSumGe_complete (below_map hB hs) hnx (he.repL hs) hh⟩
+
+/-- **enc_linear** (`enc_ne_expr_*` for every shape the operators can build): `left (≠|=) right`
+for arbitrary linear expressions over `+`, `-`, `c - x`, `* c`. -/
+theorem enc_linear {Vs : List EVar} {nx : Nat} (hB : ∀ V ∈ Vs, V.Below nx) (hnx : 0 < nx)
+    {l r : Expr} (isNe : Bool) (hl : l.Scoped Vs.length) (hr : r.Scoped Vs.length) :
+    Exact Vs (fun a => Holds a (.rel l r isNe)) (encodeCon Vs (.rel l r isNe) nx).1 nx
+      (encodeCon Vs (.rel l r isNe) nx).2 := by
+  have hts : ∀ (a : Asg), (∀ p ∈ (linDiff l r).1, p.1 < Vs.length) ∧ (∀ p ∈ (linDiff l r).1, p.2 ≠ 0) :=
+    fun a => (linDiff_spec a hl hr).2
+  have hsc := (hts []).1
+  have hnz := (hts []).2
+  have hmapB : ∀ p ∈ (linDiff l r).1.map (fun p => (ev Vs p.1, p.2)), p.1.Below nx := by
+    intro p hp; obtain ⟨q, hq, rfl⟩ := List.mem_map.1 hp; exact hB _ (ev_mem (hsc q hq))
+  have hmapC : ∀ p ∈ (linDiff l r).1.map (fun p => (ev Vs p.1, p.2)), p.2 ≠ 0 := by
+    intro p hp; obtain ⟨q, hq, rfl⟩ := List.mem_map.1 hp; exact hnz q hq
+  have hrepL : ∀ {β a}, Enc β Vs a →
+      RepL β (((linDiff l r).1.map fun p => (ev Vs p.1, p.2)).map (·.1))
+        ((linDiff l r).1.map fun p => val a p.1) := by
+    intro β a he
+    have := he.repL (vs := (linDiff l r).1.map (·.1))
+      (by intro v hv; obtain ⟨q, hq, rfl⟩ := List.mem_map.1 hv; exact hsc q hq)
+    simpa [List.map_map, Function.comp_def] using this
+  have hval : ∀ a : Asg, relHolds isNe
+      (dot ((linDiff l r).1.map fun p => (ev Vs p.1, p.2)) ((linDiff l r).1.map fun p => val a p.1)
+        + (linDiff l r).2) ↔ Holds a (.rel l r isNe) := by
+    intro a
+    rw [dot_map]
+    have := (linDiff_spec a hl hr).1
+    unfold lval at this
+    rw [this]
+    unfold relHolds Holds
+    cases isNe <;> simp <;> omega
+  have henc : encodeCon Vs (.rel l r isNe) nx
+      = encLinear ((linDiff l r).1.map fun p => (ev Vs p.1, p.2)) (linDiff l r).2 isNe nx := by
+    simp only [encodeCon]
+  rw [henc]
+  exact ⟨encLinear_mono _ _ _ _,
+    fun β a he hc => (hval a).1 (encLinear_sound (fun p hp => (hmapB p hp).1) hnx hmapC (hrepL he) hc),
+    fun β a he hh => encLinear_complete hmapB hnx hmapC (hrepL he) ((hval a).2 hh)⟩
+
+/-- constraint kinds whose encoding is proved exact (circuit and cumulative are [S]) -/
+def Con.Supported : Con → Prop
+  | .circuit _ | .cumulative .. => False
+  | _ => True
+
+/-- every supported, well-scoped constraint is encoded exactly, from any counter -/
+theorem encodeCon_exact {Vs : List EVar} {nx : Nat} (hB : ∀ V ∈ Vs, V.Below nx) (hnx : 0 < nx)
+    (c : Con) (hs : c.Scoped Vs.length) (hsup : c.Supported) :
+    Exact Vs (fun a => Holds a c) (encodeCon Vs c nx).1 nx (encodeCon Vs c nx).2 := by
+  cases c with
+  | allDiff vs => exact Exact.of_iff hB fun β a he => enc_all_different he nx hs
+  | eqConst v k => exact Exact.of_iff hB fun β a he => enc_eq_const he k nx hs
+  | neConst v k => exact Exact.of_iff hB fun β a he => enc_ne_const he k nx hs
+  | eqVar x y => exact Exact.of_iff hB fun β a he => enc_eq_var he nx hs.1 hs.2
+  | neVar x y => exact Exact.of_iff hB fun β a he => enc_ne_var he nx hs.1 hs.2
+  | rel l r isNe => exact enc_linear hB hnx isNe hs.1 hs.2
+  | sumEq vs t => exact enc_sum_eq hB hnx t hs
+  | sumLe vs t => exact enc_sum_le hB hnx t hs
+  | sumGe vs t => exact enc_sum_ge hB hnx t hs
+  | circuit vs => exact hsup.elim
+  | noOverlap ss ds => exact Exact.of_iff hB fun β a he => enc_no_overlap he ds nx hs
+  | cumulative ss ds dm cap => exact hsup.elim
+
+/-- **encode_compositional**: if each constraint's clause set (over its own fresh auxiliaries) is
+exact for its constraint, the concatenation produced by the encoder is exact for the conjunction:
+models of the union = intersection of the constraint semantics. -/
+theorem encode_compositional {Vs : List EVar} (cs : List Con) (nx : Nat) (hB : ∀ V ∈ Vs, V.Below nx)
+    (h : ∀ c ∈ cs, ∀ n, nx ≤ n →
+      Exact Vs (fun a => Holds a c) (encodeCon Vs c n).1 n (encodeCon Vs c n).2) :
+    Exact Vs (fun a => ∀ c ∈ cs, Holds a c) (encodeCons Vs cs nx).1 nx (encodeCons Vs cs nx).2 :=
+  encodeCons_exact cs nx hB h
+
+/-- **encode_model_exact_partial**: for a model without circuit/cumulative, the decoded models of
+the clause list handed to `solve_sat` are exactly the CP solutions.
+-- FULL STATEMENT (not proved): the same without the hypothesis `hsup` (i.e. including the
+-- `circuit` and `cumulative` encodings, `enc_circuit` / `enc_cumulative`, [S]). -/
+theorem encode_model_exact_partial (M : Model) (hne : ∀ d ∈ M.vars, d.lb ≤ d.ub)
+    (hsc : ∀ c ∈ M.cons, c.Scoped M.vars.length) (hsup : ∀ c ∈ M.cons, c.Supported) (a : Asg) :
+    IsSolution M a ↔
+      ∃ β, cnfTrue β (encodeModel M) = true ∧ (mkVars M.vars 1).1.map (decodeVar β) = a.map some := by
+  have hnx : 0 < (mkVars M.vars 1).2 := Nat.lt_of_lt_of_le (by omega) (mkVars_mono M.vars 1)
+  have hB := mkVars_below M.vars 1 (by omega)
+  have hpos : ∀ V ∈ (mkVars M.vars 1).1, 0 < V.base := fun V hV => (hB V hV).1
+  have hlen := mkVars_length M.vars 1
+  have E := encode_compositional (Vs := (mkVars M.vars 1).1) M.cons (mkVars M.vars 1).2 hB
+    (fun c hc n hn => encodeCon_exact (fun V hV => (hB V hV).mono hn) (by omega) c
+      (by rw [hlen]; exact hsc c hc) (hsup c hc))
+  have henc : encodeModel M = encodeVars (mkVars M.vars 1).1 ++
+      (encodeCons (mkVars M.vars 1).1 M.cons (mkVars M.vars 1).2).1 := rfl
+  constructor
+  · rintro ⟨hd, hall⟩
+    obtain ⟨β₀, _, hr0⟩ := mkVars_encode M.vars 1 a (fun _ => false) (by omega) hd
+    have he0 : Enc β₀ (mkVars M.vars 1).1 a := enc_iff_repL.2 ⟨hr0, hpos⟩
+    obtain ⟨β₁, hag, hst⟩ := E.complete β₀ a he0 hall
+    have he1 : Enc β₁ (mkVars M.vars 1).1 a := he0.of_agree hB hag
+    refine ⟨β₁, ?_, (enc_iff_repL.1 he1).1.decode⟩
+    rw [henc, cnfTrue_append_iff]
+    exact ⟨(encodeVars_iff hpos (mkVars_nonempty M.vars 1 hne)).2 ⟨a, (enc_iff_repL.1 he1).1⟩,
+      hst β₁ (AgreeBelow.refl _ _)⟩
+  · rintro ⟨β, hc, hdec⟩
+    rw [henc, cnfTrue_append_iff] at hc
+    obtain ⟨b, hb⟩ := (encodeVars_iff hpos (mkVars_nonempty M.vars 1 hne)).1 hc.1
+    have : b = a := by
+      have h1 := hb.decode
+      rw [hdec] at h1
+      exact ((List.map_inj_right (fun x y h => Option.some.inj h)).1 h1).symm
+    subst this
+    exact ⟨mkVars_bounds M.vars 1 b hb, E.sound β b (enc_iff_repL.2 ⟨hb, hpos⟩) hc.2⟩
+
+example : (⟨[⟨0, 2⟩, ⟨0, 2⟩, ⟨-1, 1⟩], [.sumEq [0, 1, 2] 3, .rel (.mul (.var 0) 2) (.add (.var 1) (.const 1)) false]⟩ : Model).cons.length = 2 := rfl
+
+
+/-! ## T-model, C05: the DFS solver (`Cp/Prop.lean`; `repaired = true` is the code with the proposed
+leaf check, `repaired = false` the unchanged code) -/
+
+/-- **propagate_sound** (one propagator): if an assignment lies within the current domains and
+satisfies the constraint, `_propagate_constraint` does not report an inconsistency and does not
+remove any of the assignment's values. -/
+theorem propagator_sound {a : Asg} {D : Doms} (h : Within a D) {c : Con} (hs : c.Scoped D.length)
+    (hh : Holds a c) : ∃ D', propCon true D c = some D' ∧ Within a D' :=
+  propCon_sound h hs hh
+
+/-- **propagate_sound** (the fixpoint loop `_propagate`): no value that occurs in a solution
+extending the current domains is ever removed, and no wipe-out is reported while such a solution
+exists — so INFEASIBLE from an exhaustive search is justified. -/
+theorem propagate_sound {a : Asg} {cs : List Con} (hall : ∀ c ∈ cs, c.Scoped a.length ∧ Holds a c)
+    (fuel : Nat) (D : Doms) (h : Within a D) :
+    ∃ D', propagate true cs fuel D = some D' ∧ Within a D' :=
+  propagate_sound_aux hall fuel D h
+
+example : Within [1, 0, 2] [[0, 1], [0], [2]] ∧
+    Holds [1, 0, 2] (.rel (.add (.mul (.var 0) 2) (.var 1)) (.var 2) false) := by
+  refine ⟨⟨rfl, fun i hi => ?_⟩, by decide⟩
+  have : i = 0 ∨ i = 1 ∨ i = 2 := by simp at hi; omega
+  rcases this with rfl | rfl | rfl <;> decide
+
+/-- **dfs_leaf_needs_check** (negative, about the unchanged code): singleton domains after
+propagation do not imply the constraints.  On `x - y == 2` over `0..1` the unchanged DFS returns
+`x = 0, y = 0` although the model has no solution; and its `_flatten_sum` misreads `2*x + y == z`
+as `y == z`, so that it reports INFEASIBLE (`[]`) on a model with the solution `(1, 0, 2)`. -/
+theorem dfs_leaf_needs_check :
+    (let M : Model := ⟨[⟨0, 1⟩, ⟨0, 1⟩], [.rel (.sub (.var 0) (.var 1)) (.const 2) false]⟩
+     dfsSolve false M [] 1 = [[0, 0]] ∧ ¬ IsSolution M [0, 0] ∧ solutions M = []) ∧
+    (let M : Model := ⟨[⟨0, 1⟩, ⟨0, 0⟩, ⟨2, 2⟩], [.rel (.add (.mul (.var 0) 2) (.var 1)) (.var 2) false]⟩
+     dfsSolve false M [] 1 = [] ∧ solutions M = [[1, 0, 2]]) := by
+  refine ⟨⟨by decide, ?_, by decide⟩, by decide, by decide⟩
+  intro h
+  have := mem_solutions.2 h
+  revert this
+  decide
+
+/-- the repaired DFS on the same two models -/
+example : dfsSolve true ⟨[⟨0, 1⟩, ⟨0, 1⟩], [.rel (.sub (.var 0) (.var 1)) (.const 2) false]⟩ [] 1 = [] ∧
+    dfsSolve true ⟨[⟨0, 1⟩, ⟨0, 0⟩, ⟨2, 2⟩], [.rel (.add (.mul (.var 0) 2) (.var 1)) (.var 2) false]⟩ [] 1
+      = [[1, 0, 2]] := by decide
+
+/-- **dfs_returns_solutions** (after the repair): every assignment returned by the DFS solver —
+whatever the hints and the solution limit — gives each variable a value inside its domain and
+satisfies every constraint of the model. -/
+theorem dfs_returns_solutions (M : Model) (hne : ∀ d ∈ M.vars, d.lb ≤ d.ub) (hints : List (Nat × Int))
+    (limit : Nat) : ∀ a ∈ dfsSolve true M hints limit, IsSolution M a := by
+  intro a ha
+  unfold dfsSolve at ha
+  have h0 := initDoms_sub M.vars hne hints
+  simp only at ha
+  split at ha
+  · cases ha
+  · next D' hp =>
+    have := propagate_sub _ _ h0.1 h0.2 hp
+    exact backtrack_sound limit _ D' ⟨[], false⟩ this.1 this.2 (by simp) a ha
+
+example : dfsSolve true ⟨[⟨0, 2⟩, ⟨0, 2⟩], [.rel (.add (.var 0) (.var 1)) (.const 2) false, .allDiff [0, 1]]⟩
+    [(0, 2), (1, 7)] 100 = [[2, 0]] := by decide
+
+/-- **choose_solver_total**: a model is routed to the SAT encoder exactly when it contains a
+SAT-only kind (sum_*, circuit, no_overlap, cumulative). -/
+theorem choose_solver_total (M : Model) : chooseSat M = true ↔ ∃ c ∈ M.cons, c.satRequired = true := by
+  simp [chooseSat]
+
+example : chooseSat ⟨[⟨0, 1⟩], [.neConst 0 0, .sumLe [0] 1]⟩ = true := by decide
 
 end Solvor.Cp
